@@ -207,7 +207,10 @@ def gen(seed, run, tier='quick'):
         specs = []
         for j in rng.sample(others, n):
             um = rng.choice([1, 1, 1, 10, 100, 1000])
-            umt = rng.choice(['int', 'int', 'dec', 'str'])
+            # (dec2: an integral Decimal written with decimals, as the
+            # amount of a Money is; frac: Fraction(n, 1); str2: '100.0')
+            umt = rng.choice(['int', 'int', 'dec', 'str', 'dec2', 'frac',
+                              'str2'])
             how = 'sym' if rng.random() < sym_cur_p else 'obj'
             specs.append([[j, how], amount(um), {'t': umt, 'v': um}])
         # the same currency twice in one update (later entry wins)
@@ -359,6 +362,7 @@ def gen(seed, run, tier='quick'):
                          | {far.isoformat()})
     cfg = {'curs': curs, 'convs': convs[:n_conv0], 'late': late,
            'clock0': rng.choice(pool).isoformat(),
+           'tz': rng.choice([0, 1, 2]),
            'probe_dates': probe_dates}
     return {'cfg': cfg, 'ops': ops}
 
@@ -515,6 +519,13 @@ def execute(h):
         sysclock.trace = []
     except Exception:       # noqa
         shim_ok = False
+    # where on earth the process runs (a knob per run): the local date is
+    # what date.today() shows; the UTC date is the day before or after
+    tz = cfg.get('tz', 0)
+    if tz:
+        sysclock.hour, sysclock.utc_offset = \
+            [(1, dt.timedelta(hours=14)), (23, dt.timedelta(hours=-12))][
+                tz - 1]
     for c in cfg['convs']:
         base = curs[c['base'] % n_cur]
         if c['clock'] == 'callable' or not shim_ok:
@@ -563,7 +574,11 @@ def execute(h):
 
     def mk_um(u):
         t, v = u['t'], u['v']
-        return {'int': int(v), 'dec': Decimal(v), 'str': str(v)}[t]
+        return {'int': lambda: int(v), 'dec': lambda: Decimal(v),
+                'str': lambda: str(v),
+                'dec2': lambda: Decimal(f'{v}.00'),
+                'frac': lambda: Fraction(int(v), 1),
+                'str2': lambda: f'{v}.0'}[t]()
 
     def mk_validity(v):
         t, x = v['t'], v.get('v')
